@@ -49,8 +49,10 @@ static const Case kCases[] = {
     {{300000000ull, 300000000ull}, {-1, -1}, 2, 1, 0, 0, "two items whose keys are each below the guard, total above INT_MAX"},
     {{357913941ull, 0}, {357913941ll, -1}, 1, 0, 1, 1, "total exactly INT_MAX with factor 3: compose-malloc must refuse"},
     {{(unsigned long long)INT_MAX / 6 - 1, 0}, {-1, -1}, 1, 1, 1, 1, "compose-malloc of a list that needs 2^31-8 characters"},
-    {{300000000ull, 0}, {300000000ll, -1}, 1, 1, 1, 2, "compose of an overflowing list into a 16-character buffer"},
+    {{300000000ull, 0}, {300000000ll, -1}, 1, 1, 1, 2, "compose of an overflowing list into a 64-character buffer"},
     {{200000000ull, 200000000ull}, {100000000ll, 220000000ll}, 2, 0, 1, 0, "two items with factor 3, total just above INT_MAX"},
+    {{8ull, 0}, {(long long)(INT_MAX / 6 - 1), -1}, 1, 1, 1, 2, "8-character key, then a value just below the guard, composed into a 64-character buffer (a writer-side bound computed in int would wrap)"},
+    {{8ull, (unsigned long long)INT_MAX / 6 - 1}, {-1, -1}, 2, 1, 1, 2, "8-character first item, then a key just below the guard, composed into a 64-character buffer"},
 };
 
 template <class C> Verdict giant_case(const Plan& plan, Stats& st, int ci) {
@@ -102,15 +104,15 @@ template <class C> Verdict giant_case(const Plan& plan, Stats& st, int ci) {
     }
     if (ok && g.violations.empty() && cs.how == 2) {
         arena_alloc(A_OBJ, 32, sizeof(C), perm(0, RS_REDZONE));
-        C* dest = (C*)arena_alloc(A_OBJ, 16 * sizeof(C), sizeof(C), P_RW);
+        C* dest = (C*)arena_alloc(A_OBJ, 64 * sizeof(C), sizeof(C), P_RW);
         arena_alloc(A_OBJ, 64, 1, perm(0, RS_REDZONE));
         int* written = (int*)arena_alloc(A_OBJ, sizeof(int), 4, P_RW); *written = -7;
         rc = -999;
         call_begin(1, -1, -1, FaultPlan());
-        LIBCALL_RUN({ rc = A::ComposeQueryEx(dest, nodes, 16, written, sp, nb); }, ok);
+        LIBCALL_RUN({ rc = A::ComposeQueryEx(dest, nodes, 64, written, sp, nb); }, ok);
         call_end();
         st.trials++;
-        if (ok && rc == URI_SUCCESS) { g.cur->op = 1; violate(V_INTMAX, std::string("[small-buffer-success] ") + cs.name + ": compose into 16 characters reported success", false); }
+        if (ok && rc == URI_SUCCESS) { g.cur->op = 1; violate(V_INTMAX, std::string("[small-buffer-success] ") + cs.name + ": compose into 64 characters reported success", false); }
     }
     st.loads += g.loads; st.stores += g.stores; st.edges += g.edges; st.events += g.ev_count; st.evh = mix64(st.evh, g.ev_hash);
     g.giant_lo = g.giant_hi = 0;
@@ -133,7 +135,9 @@ Verdict check_giant(const Plan& plan, Stats& st) {
     int ncases = (int)(sizeof kCases / sizeof kCases[0]);
     if (ci < 0 || ci >= ncases) return Verdict();
     // wide strings cost four times the address space and memory traffic: run the wide build on the cheaper cases only
-    if (plan.chr && kCases[ci].klen[0] <= 300000000ull) return giant_case<wchar_t>(plan, st, ci);
+    unsigned long long longest = 0;
+    for (int i = 0; i < kCases[ci].items; i++) { longest = std::max(longest, kCases[ci].klen[i]); if (kCases[ci].vlen[i] > 0) longest = std::max(longest, (unsigned long long)kCases[ci].vlen[i]); }
+    if (plan.chr && longest <= 300000000ull) return giant_case<wchar_t>(plan, st, ci);
     return giant_case<char>(plan, st, ci);
 }
 
